@@ -22,7 +22,16 @@
     `returned` payloads whose push has returned   (appended at `ret push`)
     `popped`   payloads in the order successful trypops RETURNED them (appended at `ret pop v`)
     `q`        the nodes owned by the queue, stub first.
-  Client obligations (one trypop at a time; SPSC: one push at a time; a pushed node is owned
+    `peeked`   one entry `(i, v)` per `mpsc_fifo_peek` that reported a payload (appended at
+               `ret peek v`, v ≠ 0): `v` = what it reported, `i` = the number of successful
+               trypops that had RETURNED before it — the consumer runs one operation at a time,
+               so "the consumer's next successful trypop after that peek" is the one that
+               fills `popped[i]`.
+  `mpsc_fifo_peek` exists for the strict MPSC queue only (`step` accepts `call peek` for
+  `Kind.mpsc` alone, `spsc_has_no_peek`); its two reads `head`, `head->next` are the SAME model
+  events (`rdHead`, `rdNext`) as trypop's, so every theorem below that speaks about a NULL read
+  of `head->next` covers trypop and peek alike.
+  Client obligations (one trypop / peek at a time; SPSC: one push at a time; a pushed node is owned
   by the pusher; payloads distinct and non-zero) are enforced by `step` itself, see the model
   headers.
 -/
@@ -148,7 +157,144 @@ theorem empty_report_after_null_read {es : List Ev} {s s' : St} {t : Nat}
   let ⟨hi, hv⟩ := Mpsc.invs_of_run h0 hr
   Mpsc.ret_zero_core hi hv hs
 
+/-! ### `mpsc_fifo_peek` -/
+
+/-- What a peek reports, at the instant it returns: `0` only after a NULL read of `head->next`
+    (nothing recorded); otherwise the payload that is NEXT in publication order,
+    `pushed[popped.length]`, and exactly that is recorded in `peeked`. -/
+theorem peek_report {es : List Ev} {s s' : St} {t v : Nat}
+    (hr : (sys k stub).run es = some s) (hs : step k s (.retPeek t v) = some s') :
+    (v = 0 ∧ (∃ h, s.cpc = .pkGotNext h 0) ∧ s'.peeked = s.peeked) ∨
+      (v ≠ 0 ∧ s.pushed[s.popped.length]? = some v ∧
+        s'.peeked = s.peeked ++ [(s.popped.length, v)]) :=
+  let ⟨hi, hv⟩ := Mpsc.invs_of_run h0 hr
+  Mpsc.peek_ret_core hi hv hs
+
+/-- Peek returns exactly the payload the consumer's next successful trypop returns: in every
+    reachable state, a peek that reported `v` after `i` successful trypops saw the `i`-th
+    published payload, and if the `i`-th successful trypop has happened, it returned `v`. -/
+theorem peek_is_next_pop {es : List Ev} {s : St} (h : (sys k stub).run es = some s) :
+    ∀ i v, (i, v) ∈ s.peeked →
+      s.pushed[i]? = some v ∧ ∀ w, s.popped[i]? = some w → w = v := by
+  obtain ⟨hi, hv⟩ := Mpsc.invs_of_run h0 h
+  intro i v hm
+  have hp := hi.pk _ _ hm
+  refine ⟨hp, fun w hw => ?_⟩
+  have := Mpsc.idx_of_prefix (Mpsc.popped_prefix hi) hw
+  rw [hp] at this
+  exact (Option.some.inj this).symm
+
+/-- … the same, along a run: a peek reports `v ≠ 0` in state `s1`; whatever happens afterwards
+    (more pushes, more peeks, empty trypops), the first successful trypop after it — the one
+    that fills `popped[s1.popped.length]` — returns `v`. -/
+theorem peek_then_pop {es1 es2 : List Ev} {s1 s2 : St} {t v : Nat}
+    (h1 : (sys k stub).run es1 = some s1) (hv0 : v ≠ 0)
+    (h2 : (sys k stub).runFrom s1 (.retPeek t v :: es2) = some s2) :
+    ∀ w, s2.popped[s1.popped.length]? = some w → w = v := by
+  intro w hw
+  have hi1 := Mpsc.invs_of_run h0 h1
+  have hi2 := Mpsc.invs_of_runFrom hi1 h2
+  have hfront : s1.pushed[s1.popped.length]? = some v := by
+    simp only [Sys.runFrom] at h2
+    cases hst : (sys k stub).step s1 (.retPeek t v) with
+    | none => simp [hst] at h2
+    | some s1' =>
+      rcases Mpsc.peek_ret_core hi1.1 hi1.2 (k := k) hst with ⟨hz, _⟩ | ⟨_, hf, _⟩
+      · exact absurd hz hv0
+      · exact hf
+  have hp2 := Mpsc.idx_of_prefix (Mpsc.pushed_prefix_of_runFrom h2) hfront
+  have := Mpsc.idx_of_prefix (Mpsc.popped_prefix hi2.1) hw
+  rw [hp2] at this
+  exact (Option.some.inj this).symm
+
+/-- Peek is stable: two peeks with no successful trypop between them (same count `i`) report
+    the same payload. -/
+theorem peek_stable {es : List Ev} {s : St} (h : (sys k stub).run es = some s) :
+    ∀ i v v', (i, v) ∈ s.peeked → (i, v') ∈ s.peeked → v = v' := by
+  obtain ⟨hi, _⟩ := Mpsc.invs_of_run h0 h
+  intro i v v' hm hm'
+  have := hi.pk _ _ hm
+  rw [hi.pk _ _ hm'] at this
+  exact (Option.some.inj this).symm
+
+/-- … and once a peek has reported a payload, neither a later peek nor a trypop can find the
+    queue "empty" before a trypop has taken that payload: while `(popped.length, v)` is in
+    `peeked`, no NULL read of `head->next` is possible (links are never undone and only the
+    consumer moves `head`). -/
+theorem peek_no_empty_after_payload {es : List Ev} {s s' : St} {t h : Nat}
+    (hr : (sys k stub).run es = some s) (hs : step k s (.rdNext t h 0) = some s') :
+    ∀ v, (s.popped.length, v) ∉ s.peeked := by
+  obtain ⟨hi, _⟩ := Mpsc.invs_of_run h0 hr
+  have hpk := Mpsc.pkinv_of_run h0 hr
+  intro v hm
+  obtain ⟨_, hnx, hin, _⟩ := Mpsc.null_read_shape hi hs
+  exact hpk.linked v hm (Mpsc.holds_of_inflight_nil hin) hnx
+
+/-- peeks are recorded with the number of trypops that had returned: never ahead of `popped` -/
+theorem peek_index_le {es : List Ev} {s : St} (h : (sys k stub).run es = some s) :
+    ∀ i v, (i, v) ∈ s.peeked → i ≤ s.popped.length :=
+  (Mpsc.pkinv_of_run h0 h).le
+
+/-- Peek never reports something that was not pushed: every reported payload was handed to a
+    push and published by it; it is never the NULL token. -/
+theorem peek_never_invented {es : List Ev} {s : St} (h : (sys k stub).run es = some s) :
+    ∀ i v, (i, v) ∈ s.peeked → v ∈ s.pushed ∧ v ∈ s.called ∧ v ≠ 0 := by
+  obtain ⟨hi, hv⟩ := Mpsc.invs_of_run h0 h
+  intro i v hm
+  have hpu : v ∈ s.pushed := Mpsc.mem_of_idx (hi.pk _ _ hm)
+  have hc := hv.pushedSub _ hpu
+  exact ⟨hpu, hc, fun he => hv.callNz (he ▸ hc)⟩
+
+/-- Peek never reports something that was already popped: at its return, the reported payload
+    has not been returned by any trypop … -/
+theorem peek_not_yet_popped {es : List Ev} {s s' : St} {t v : Nat}
+    (hr : (sys k stub).run es = some s) (hs : step k s (.retPeek t v) = some s') (hv0 : v ≠ 0) :
+    v ∉ s.popped := by
+  obtain ⟨hi, hv⟩ := Mpsc.invs_of_run h0 hr
+  rcases Mpsc.peek_ret_core hi hv hs with ⟨hz, _⟩ | ⟨_, hf, _⟩
+  · exact absurd hz hv0
+  · exact Mpsc.front_not_popped hi hv hf
+
+/-- … and, over whole histories: the payload of a peek made after `i` successful trypops is
+    returned by trypop number `i` and by no other (in particular by none of the first `i`). -/
+theorem peek_popped_only_next {es : List Ev} {s : St} (h : (sys k stub).run es = some s) :
+    ∀ i v, (i, v) ∈ s.peeked → ∀ j, s.popped[j]? = some v → j = i := by
+  obtain ⟨hi, hv⟩ := Mpsc.invs_of_run h0 h
+  intro i v hm j hj
+  exact Mpsc.popped_idx_unique hi hv (hi.pk _ _ hm) hj
+
+/-- A peek reports empty only after a NULL read of `head->next` … -/
+theorem peek_empty_report_after_null_read {es : List Ev} {s s' : St} {t : Nat}
+    (hr : (sys k stub).run es = some s) (hs : step k s (.retPeek t 0) = some s') :
+    ∃ h, s.cpc = .pkGotNext h 0 := by
+  rcases peek_report k stub h0 hr hs with ⟨_, hh, _⟩ | ⟨hne, _⟩
+  · exact hh
+  · exact absurd rfl hne
+
+/-- … and that read (the consumer is inside a peek: `pkGotHead`) happens only when no node
+    follows the stub or the next node's producer sits between its publication and its link
+    write; in the words of the property: no completed push is pending, or a push is in
+    flight. -/
+theorem peek_empty_justified {es : List Ev} {s s' : St} {t h h' : Nat}
+    (hr : (sys k stub).run es = some s) (hpk : s.cpc = .pkGotHead h')
+    (hs : step k s (.rdNext t h 0) = some s') :
+    s'.cpc = .pkGotNext h 0 ∧ h = s.head ∧
+      (s.q = [s.head] ∨ ∃ p v n, s.pc p = .xchgd v n s.head ∧ s.q[1]? = some n) ∧
+      ((∀ v, v ∈ s.returned → v ∈ s.popped) ∨ ∃ p v n p', s.pc p = .xchgd v n p') := by
+  obtain ⟨hi, hv⟩ := Mpsc.invs_of_run h0 hr
+  obtain ⟨hh, hj⟩ := Mpsc.empty_core hi hs
+  refine ⟨?_, hh, hj, Mpsc.empty_pending_core hi hv hs⟩
+  simp only [step, hpk] at hs
+  split at hs <;> simp at hs
+  rename_i hc
+  rw [← hs, hc.2.1]
+
 end queue
+
+/-- spsc_fifo.h has no peek: the SPSC model (hence every sub-queue of the relaxed queue)
+    rejects `call peek` in every state. -/
+theorem spsc_has_no_peek (s : St) (t : Nat) : step .spsc s (.callPeek t) = none :=
+  Mpsc.spsc_no_peek s t
 
 /-- SPSC, strict emptiness: a trypop reads `head->next = NULL` only if every push that has
     returned has already been popped (the only push that can be in flight is a later one). -/
@@ -332,6 +478,40 @@ example : ((sys .mpsc 1).run (traceMpsc.take 24)).map (fun s => decide (20 ∈ s
     is a NULL read of `head->next` while `q = [1, 2, 3]` and producer 1 sits in `xchgd` -/
 example : ((sys .mpsc 1).run (traceMpsc.take 12)).map (fun s => (s.q, s.pc 1, s.returned)) =
     some ([1, 2, 3], .xchgd 10 2 1, [20]) ∧ traceMpsc[12]? = some (.rdNext 0 1 0) := by decide
+
+/-- MPSC with peeks (thread 0 is the consumer).  Producer 1 publishes node 2 and stalls before
+    linking: the first peek reads NULL and reports empty (in-flight branch of
+    `peek_empty_justified`).  After the link, a second peek reads `head`, `head->next`, then a
+    whole push of 20 by producer 2 runs, then the peek reads the payload and reports 10; a third
+    peek reports 10 again (`peek_stable`); the trypop returns 10 (`peek_is_next_pop`); the last
+    peek reports 20. -/
+def tracePeek : List Ev := [
+  .callPush 1 10, .wrDataClient 1 2 10, .wrNext 1 2 0, .xchgTail 1 1 2,
+  .callPeek 0, .rdHead 0 1, .rdNext 0 1 0, .retPeek 0 0,
+  .wrNext 1 1 2, .retPush 1 1,
+  .callPeek 0, .rdHead 0 1, .rdNext 0 1 2,
+  .callPush 2 20, .wrDataClient 2 3 20, .wrNext 2 3 0, .xchgTail 2 2 3, .wrNext 2 2 3, .retPush 2 1,
+  .rdDataPeek 0 2 10, .retPeek 0 10,
+  .callPeek 0, .rdHead 0 1, .rdNext 0 1 2, .rdDataPeek 0 2 10, .retPeek 0 10,
+  .callPop 0, .rdHead 0 1, .rdNext 0 1 2, .wrHead 0 2, .rdDataPop 0 2 10, .wrDataPop 0 1 10,
+  .rdDataClient 0 1 10, .retPop 0 10,
+  .callPeek 0, .rdHead 0 2, .rdNext 0 2 3, .rdDataPeek 0 3 20, .retPeek 0 20]
+
+example : ((sys .mpsc 1).run tracePeek).map (fun s => (s.pushed, s.popped, s.peeked, s.q)) =
+    some ([10, 20], [10], [(0, 10), (0, 10), (1, 20)], [2, 3]) := by decide
+
+/-- the hypotheses of `peek_empty_justified` are satisfiable in the in-flight branch: the 7th
+    event is a NULL read of `head->next` by a peek while `q = [1, 2]` and producer 1 sits in
+    `xchgd`; and those of `peek_report` / `peek_then_pop`: the 21st event is `ret peek 10` -/
+example : ((sys .mpsc 1).run (tracePeek.take 6)).map (fun s => (s.q, s.pc 1, s.cpc)) =
+    some ([1, 2], .xchgd 10 2 1, .pkGotHead 1) ∧ tracePeek[6]? = some (.rdNext 0 1 0) ∧
+    tracePeek[20]? = some (.retPeek 0 10) := by decide
+
+/-- a peek is a consumer-side operation: while one is in progress the model rejects a trypop
+    (and vice versa), and the SPSC model rejects peek altogether -/
+example : ((sys .mpsc 1).run (tracePeek.take 11 ++ [.callPop 0])).isSome = false ∧
+    ((sys .mpsc 1).run (tracePeek.take 27 ++ [.callPeek 0])).isSome = false ∧
+    ((sys .spsc 1).run [.callPeek 0]).isSome = false := by decide
 
 /-- SPSC: one producer (thread 1), consumer thread 0 interleaved inside the producer's
     load-tail / store-tail / link sequence; node 1 is reused. -/
